@@ -8,7 +8,7 @@ condition "the frames on the stack are neither entered nor left":
 * `BTrc s ch`: the tracker stream of `s` satisfies `NoReentry`, and for every task `t` the number
   of `execute_start t` exceeds the number of `execute_end t` by the number of frames of `t` on
   the stack (`0` or `1`).
-* `Quiet ch s s'`: between `s` and `s'` no `execute_start`/`execute_end` of a task on the stack
+* `QuietB ch s s'`: between `s` and `s'` no `execute_start`/`execute_end` of a task on the stack
   `ch` was emitted (and the store only grew).
 * `PostS`: post-condition of a call made with stack `ch`: if it returns, the stack is `ch` again;
   if it aborts, the state at the abort point satisfies the invariant for a stack `ch'` that
@@ -91,7 +91,7 @@ theorem trans (h₁ : QStep s a) (h₂ : QStep a b) : QStep s b :=
 theorem of_eq (h1 : s'.store = s.store) (h2 : s'.trace = s.trace) : QStep s s' :=
   ⟨h1 ▸ Store.Le.refl _, Silent.of_eq h2⟩
 
-theorem emit (s : Sess) {e : Ev} (he : e.isExec = false) : QStep s (s.emit e) :=
+theorem emit (s : Sess) {e : Ev} (he : e.isExecEv = false) : QStep s (s.emit e) :=
   ⟨Store.Le.refl _, Silent.emit s he⟩
 
 end QStep
@@ -136,36 +136,36 @@ theorem BTrc.pop {s s' : Sess} {ch : List Nat} {node t : Nat} {o : Int}
 
 /-- Between `s` and `s'` the store only grew and no `execute_start`/`execute_end` of a task on
 the stack `ch` was emitted. -/
-structure Quiet (ch : List Nat) (s s' : Sess) : Prop where
+structure QuietB (ch : List Nat) (s s' : Sess) : Prop where
   le : s.store.Le s'.store
   start : ∀ n ∈ ch, ∀ u, s.store.taskOf n = some u →
     countExec u s'.trace = countExec u s.trace
   stop : ∀ n ∈ ch, ∀ u, s.store.taskOf n = some u →
     countEnd u s'.trace = countEnd u s.trace
 
-namespace Quiet
+namespace QuietB
 variable {ch : List Nat} {s a b s' : Sess}
 
-theorem of_step (q : QStep s s') : Quiet ch s s' :=
+theorem of_step (q : QStep s s') : QuietB ch s s' :=
   ⟨q.le, fun _ _ u _ => q.silent.countExec u, fun _ _ u _ => q.silent.countEnd u⟩
 
-theorem refl (ch : List Nat) (s : Sess) : Quiet ch s s := of_step (QStep.refl s)
+theorem refl (ch : List Nat) (s : Sess) : QuietB ch s s := of_step (QStep.refl s)
 
-theorem trans (h₁ : Quiet ch s a) (h₂ : Quiet ch a b) : Quiet ch s b :=
+theorem trans (h₁ : QuietB ch s a) (h₂ : QuietB ch a b) : QuietB ch s b :=
   ⟨h₁.le.trans h₂.le,
     fun n hn u hu => (h₂.start n hn u (h₁.le.task n u hu)).trans (h₁.start n hn u hu),
     fun n hn u hu => (h₂.stop n hn u (h₁.le.task n u hu)).trans (h₁.stop n hn u hu)⟩
 
-theorem mono {ch' : List Nat} (h : Quiet ch s s') (hk : ∀ n ∈ ch', n ∈ ch) : Quiet ch' s s' :=
+theorem mono {ch' : List Nat} (h : QuietB ch s s') (hk : ∀ n ∈ ch', n ∈ ch) : QuietB ch' s s' :=
   ⟨h.le, fun n hn => h.start n (hk n hn), fun n hn => h.stop n (hk n hn)⟩
 
-theorem out {α : Type} {F : Sess × α} {r : α} (q : Quiet ch s F.1) (heq : F = (s', r)) :
-    Quiet ch s s' := by rw [heq] at q; exact q
+theorem out {α : Type} {F : Sess × α} {r : α} (q : QuietB ch s F.1) (heq : F = (s', r)) :
+    QuietB ch s s' := by rw [heq] at q; exact q
 
 /-- Entering a task whose node is not on the stack. -/
 theorem push {node t : Nat} (hw : s.store.WF) (ht : s.store.taskOf node = some t)
     (hnch : node ∉ ch) (hle : s.store.Le s'.store)
-    (h2 : s'.trace = s.trace ++ [.executeStart t]) : Quiet ch s s' := by
+    (h2 : s'.trace = s.trace ++ [.executeStart t]) : QuietB ch s s' := by
   refine ⟨hle, fun n hn u hu => ?_, fun n hn u hu => ?_⟩
   · rw [h2, countExec_snoc_start]
     have : t ≠ u := fun htu => hnch (hw.taskOf_inj (htu ▸ hu) ht ▸ hn)
@@ -175,14 +175,14 @@ theorem push {node t : Nat} (hw : s.store.WF) (ht : s.store.taskOf node = some t
 /-- Leaving a task whose node is not on the stack. -/
 theorem pop {node t : Nat} {o : Int} (hw : s.store.WF) (ht : s.store.taskOf node = some t)
     (hnch : node ∉ ch) (hle : s.store.Le s'.store)
-    (h2 : s'.trace = s.trace ++ [.executeEnd t o]) : Quiet ch s s' := by
+    (h2 : s'.trace = s.trace ++ [.executeEnd t o]) : QuietB ch s s' := by
   refine ⟨hle, fun n hn u hu => ?_, fun n hn u hu => ?_⟩
   · rw [h2, countExec_snoc_end]
   · rw [h2, countEnd_snoc_end]
     have : t ≠ u := fun htu => hnch (hw.taskOf_inj (htu ▸ hu) ht ▸ hn)
     simp [this]
 
-end Quiet
+end QuietB
 
 /-! ### post-conditions -/
 
@@ -197,8 +197,8 @@ def AbortB (ch : List Nat) (s' : Sess) : Prop :=
 if it returns, `AbortB` if it aborts; in both cases the frames of `ch` were neither entered nor
 left. -/
 def PostS {α : Type} (ch : List Nat) (s : Sess) (P : Sess → α → Prop) : Sess × Res α → Prop
-  | (s', .ok v) => P s' v ∧ (T → BTrc s' ch) ∧ Quiet ch s s'
-  | (s', .abort _) => AbortB T ch s' ∧ Quiet ch s s'
+  | (s', .ok v) => P s' v ∧ (T → BTrc s' ch) ∧ QuietB ch s s'
+  | (s', .abort _) => AbortB T ch s' ∧ QuietB ch s s'
 
 variable {T}
 
@@ -214,19 +214,19 @@ namespace PostS
 variable {α : Type} {ch : List Nat} {s : Sess} {P Q : Sess → α → Prop}
 
 theorem ok {F : Sess × Res α} {s' : Sess} {v : α} (h : PostS T ch s P F) (heq : F = (s', .ok v)) :
-    P s' v ∧ (T → BTrc s' ch) ∧ Quiet ch s s' := by rw [heq] at h; exact h
+    P s' v ∧ (T → BTrc s' ch) ∧ QuietB ch s s' := by rw [heq] at h; exact h
 
 theorem abort {F : Sess × Res α} {s' : Sess} {k : Abort} (h : PostS T ch s P F)
-    (heq : F = (s', .abort k)) : AbortB T ch s' ∧ Quiet ch s s' := by rw [heq] at h; exact h
+    (heq : F = (s', .abort k)) : AbortB T ch s' ∧ QuietB ch s s' := by rw [heq] at h; exact h
 
-theorem quiet {x : Sess × Res α} (h : PostS T ch s P x) : Quiet ch s x.1 := by
+theorem quiet {x : Sess × Res α} (h : PostS T ch s P x) : QuietB ch s x.1 := by
   obtain ⟨s', r⟩ := x
   cases r with
   | ok v => exact h.2.2
   | abort k => exact h.2
 
 /-- Continue after a quiet segment `s → s₂`. -/
-theorem chain {s₂ : Sess} {x : Sess × Res α} (q : Quiet ch s s₂) (h : PostS T ch s₂ P x)
+theorem chain {s₂ : Sess} {x : Sess × Res α} (q : QuietB ch s s₂) (h : PostS T ch s₂ P x)
     (hpq : ∀ s' v, P s' v → Q s' v) : PostS T ch s Q x := by
   obtain ⟨s', r⟩ := x
   cases r with
@@ -234,11 +234,11 @@ theorem chain {s₂ : Sess} {x : Sess × Res α} (q : Quiet ch s s₂) (h : Post
   | abort k => exact ⟨h.1, q.trans h.2⟩
 
 theorem mono {x : Sess × Res α} (h : PostS T ch s P x) (hpq : ∀ s' v, P s' v → Q s' v) :
-    PostS T ch s Q x := chain (Quiet.refl ch s) h hpq
+    PostS T ch s Q x := chain (QuietB.refl ch s) h hpq
 
 /-- An abort right here. -/
 theorem abort_here {s' : Sess} {k : Abort} (hf : BFrames s' ch) (ht : T → BTrc s' ch)
-    (q : Quiet ch s s') : PostS T ch s P ((s', .abort k) : Sess × Res α) :=
+    (q : QuietB ch s s') : PostS T ch s P ((s', .abort k) : Sess × Res α) :=
   ⟨AbortB.here hf ht, q⟩
 
 end PostS
